@@ -10,6 +10,7 @@ import (
 	"os/exec"
 	"path/filepath"
 	"regexp"
+	"runtime/debug"
 	"sort"
 	"strconv"
 	"strings"
@@ -380,6 +381,9 @@ func runItem(prog *ssa.Program, it item) (res *itemResult) {
 	defer func() {
 		if r := recover(); r != nil {
 			res.Errors = append(res.Errors, fmt.Sprintf("INTERNAL engine panic: %v", r))
+			if *flagVerbose {
+				fmt.Fprintf(os.Stderr, "%s\n", debug.Stack())
+			}
 		}
 		res.WallMs = time.Since(t0).Milliseconds()
 	}()
